@@ -19,7 +19,15 @@ META = {
               "link transfers of 0..3 words; network faults (request lost, "
               "reply lost, reply duplicated) with a budget of 1 (quick) / 2 "
               "(thorough), plus at most one reply delayed past its timeout, "
-              "replies delivered in any order, on transfers of up to 3 chunks",
+              "replies delivered in any order, on transfers of up to 3 chunks; "
+              "large transfers against a 256-byte buffer: writes and reads "
+              "of 515 (thorough also 1024, 1029, 2050) bytes whose content "
+              "repeats four symbolic bytes (reads checked at every chunk "
+              "boundary +-1, the ends and the middle), fills of 259 and 516 "
+              "(thorough also 1001, 1024) bytes; several per-core accesses "
+              "through one controller (two chips with different symbolic "
+              "vcpu_base, vcpu_base rewritten between accesses); the string "
+              "field app_name with concrete base, core and text",
     "stubs": ["clock / select / socket: models/net.py (prompt, fault-free "
               "delivery except in the fault units; there the clock is "
               "concrete -- timing is C06's subject -- and the network's "
@@ -40,9 +48,8 @@ META = {
         "memory initially holds a fixed function of the address, so a read "
         "of the wrong address shows",
     ],
-    "outside_claim": ["transfers longer than 16 bytes / more than 3 chunks "
-                      "(the chunk arithmetic is periodic in the buffer size: "
-                      "an argument, not checked)",
+    "outside_claim": ["transfers with fully symbolic content longer than 16 "
+                      "bytes; lengths other than those listed",
                       "fault budgets above 2"],
 }
 
@@ -146,6 +153,60 @@ def h_rw(ctx, op, lengths, bufs, windows=(1,), faults=0, kinds=(),
                 ctx.witness("gave-up")
                 ctx.prove(True, "transport-error-allowed")
                 return
+            ctx.observe(type(e).__name__)
+            ctx.prove(False, "memory-unexpected-exception", repr(e))
+            return
+    ctx.prove(set(machine.memories) <= {(X, Y)}, "memory-other-chip-touched",
+              repr(sorted(machine.memories)))
+    _check_commands(ctx, machine, buf, (2, 3), (X, Y, 1))
+
+
+def h_rw_large(ctx, op, lengths, bufs):
+    """Transfers of several buffers' length: the payload (or the memory read)
+    repeats four symbolic bytes, so that the machine model logs one record
+    per command; address and pattern symbolic."""
+    from rig.machine_control import MachineController
+    from models.machine import _mix, _Run
+    from sx.proxies import SymBytes
+    buf = ctx.pick(bufs)
+    n = ctx.pick(lengths)
+    machine, world, patch = _controller(ctx, buf)
+    addr = ctx.bv("addr", 32)
+    ctx.assume(addr + n <= (1 << 32))
+    pat = ctx.bytes("pattern", 4)
+    with patch:
+        mc = MachineController("host", n_tries=2)
+        mem = machine.memory((X, Y))
+        try:
+            if op == "write":
+                payload = SymBytes([pat[i % 4] for i in range(n)])
+                mc.write(addr, payload, X, Y, 1)
+                ctx.observe("wrote large")
+                ctx.witness("wrote")
+                t = ctx.bv("t", 32)
+                got = mem.load(t)
+                want = _Run(addr, n, [pat[k] for k in range(4)]).apply(
+                    t, _mix(t))
+                ctx.prove(got == want, "memory-write-wrong-bytes",
+                          (addr, n, t, got, want))
+            else:
+                paddr = ctx.bv("paddr", 32)
+                run = _Run(paddr, 2 * n, [pat[k] for k in range(4)])
+                mem.writes.append(run)
+                data = mc.read(addr, n, X, Y, 1)
+                ctx.observe("read large", len(data))
+                ctx.witness("read")
+                ctx.prove(len(data) == n, "memory-read-wrong-length")
+                marks = sorted(set(
+                    i for k in range(0, n + buf, buf) for i in
+                    (k - 1, k, k + 1) if 0 <= i < min(n, len(data))) |
+                    {0, n - 1, n // 2})
+                for i in marks:
+                    want = run.apply(addr + i, _mix(addr + i))
+                    ctx.prove(data[i] == want, "memory-read-wrong-bytes",
+                              (addr, n, i, data[i], want))
+                ctx.prove(len(mem.writes) == 1, "memory-read-modified")
+        except Exception as e:
             ctx.observe(type(e).__name__)
             ctx.prove(False, "memory-unexpected-exception", repr(e))
             return
@@ -516,6 +577,12 @@ def units(tier, seed):
                         bufs=(8,) if q else (4, 8)), split=4,
                    witnesses=("word-fill", "byte-fill")))
     # regions larger than one buffer and than any small-size special case
+    for op, w in (("write", "wrote"), ("read", "read")):
+        us.append(Unit("%s large" % op, h_rw_large,
+                       dict(op=op, lengths=(515,) if q else
+                            (515, 1024, 1029, 2050), bufs=(256,)), split=3,
+                       witnesses=(w,), path_timeout_s=300,
+                       timeout_ms=300000))
     us.append(Unit("fill large", h_fill,
                    dict(sizes=(259, 516) if q else (259, 516, 1001, 1024),
                         bufs=(256,)), split=3,
